@@ -268,6 +268,18 @@ public:
     return it.item;
   }
 
+  bool operator==(const Array& other) const
+  {
+    if(size() != other.size())
+      return false;
+    for(const T* a = _begin.item, * b = other._begin.item, * end = _end.item; a != end; ++a, ++b)
+      if(!(*a == *b))
+        return false;
+    return true;
+  }
+
+  bool operator!=(const Array& other) const {return !(*this == other);}
+
   Iterator find(const T& value) const
   {
     for(T* pos = _begin.item, * end = _end.item; pos < end; ++pos)
